@@ -211,6 +211,9 @@ class TransformedTargetClassifier2(BaseEstimator, ClassifierMixin):
         self._check_is_fitted()
         inv = self.transformer_.get_fct_inv()
         _, pred_inv = inv.transform(None, self.classifier_.classes_)
+        # predict_proba and decision_function order their columns
+        # by sorted original labels
+        pred_inv.sort()
         return pred_inv
 
     def _apply(self, X, method):
